@@ -1,6 +1,7 @@
 import Qryn.Proofs.ReadCode
 import Qryn.Proofs.ReadPipe
 import Qryn.Proofs.ReadPipeH
+import Qryn.Proofs.ReadPipeHExec
 import Qryn.Proofs.ReadCensus
 /-! # C12 — no query can crash, hang or leak work on the read side   (PARTIAL: bookkeeping proved, runtime explored)
 
@@ -391,8 +392,8 @@ theorem no_blocked_sender (n : Nat) (hn : 0 < n) (rows : List Item) (flush : Nat
     exact absurd hs (hstuck S')
 
 /-- **abandoned_exporter_never_returns.** The counter-pattern in general: once the handler has left its loop, its
-    code neither drains nor do the producers watch the context (`onStop = abandon`, `sel = false`: seeded change
-    C12-1 on today's producers), and the exporter has a chunk to hand over, then in EVERY continuation, whatever the
+    code does not drain and the producers do not watch the context (`onStop ≠ drain`, `sel = false`: seeded change
+    C12-1 on today's producers — also when the handler "only" cancels the request context), and the exporter has a chunk to hand over, then in EVERY continuation, whatever the
     pipeline length and the schedule, the exporter still holds that chunk: it never returns, its deferred drain never
     runs, the final state is never reached. -/
 theorem abandoned_exporter_never_returns (S S' : HSys) (hA : Abandoned S) (hr : HRun S S') :
@@ -419,10 +420,36 @@ theorem early_return_terminates_counterexample : ¬ early_return_terminates_full
       (fun ⟨it, h⟩ => by simp [S1, S0, hstart, start] at h)
   have hrun : HRun S0 { S1 with sys := T } := HRun.step st1 (HRun.step st2 (HRun.refl _))
   have hA : Abandoned { S1 with sys := T } := by
-    refine ⟨rfl, rfl, rfl, by decide, ?_⟩
+    refine ⟨rfl, by decide, rfl, by decide, ?_⟩
     simp [T, S1, S0, hstart, start, upd, Stg.recv, row]
   obtain ⟨S', hr', hF⟩ := hfull 1 [row] (fun _ => []) _ (by decide) hrun
   exact (abandoned_exporter_never_returns _ S' hA hr').2 hF
+
+/-- **consumer_schedule_sound.** What the compiled model answers in the `consumer` correspondence stream
+    (`c12hstop`: scanner → exporter → a consumer that leaves after `k` chunks and then drains / cancels / abandons) is
+    a statement about the transition system: the state the executable schedule `hsched` ends in is REACHABLE from the
+    start state by moves of `HStep`; if the verdict is `final`, every goroutine has returned there; if it is `blocked`,
+    no continuation whatsoever reaches the final state (the exporter never returns). -/
+theorem consumer_schedule_sound (k fuel : Nat) (S : HSys) :
+    HRun S (hsched k fuel S 0).1 ∧
+    (verdict (hsched k fuel S 0).1 = "final" → HFinal (hsched k fuel S 0).1) ∧
+    (verdict (hsched k fuel S 0).1 = "blocked" → ∀ S', HRun (hsched k fuel S 0).1 S' → ¬ HFinal S') := by
+  refine ⟨hsched_run k fuel S 0, ?_, ?_⟩
+  · intro hv
+    apply hfinalB_sound
+    unfold verdict at hv
+    split at hv
+    · assumption
+    · split at hv <;> simp at hv
+  · intro hv S' hr
+    have hb : abandonedB (hsched k fuel S 0).1 = true := by
+      unfold verdict at hv
+      split at hv
+      · simp at hv
+      · split at hv
+        · assumption
+        · simp at hv
+    exact (abandoned_exporter_never_returns _ S' (abandonedB_sound _ hb) hr).2
 
 -- non-vacuity: the hypotheses of the theorems above are satisfiable and the guard lets ordinary requests through
 example : fixGuard ReadSide.maxFixPeriodPoints ⟨1700000000000000000, 1700003600000000000, 15000000000, 60000000000⟩ = true := by decide
@@ -437,5 +464,9 @@ example : Inv (start 3 [.mk false [.mk false []]] (fun _ => []) (fun _ => true))
 example : ∃ S', HStep (hstart 2 [.mk false [.mk false []]] (fun _ => []) (fun _ => true) .drain false) S' ∧ S'.reading = false :=
   ⟨_, HStep.stop _ rfl, rfl⟩
 example : HInv (hstart 2 [.mk true []] (fun _ => []) (fun _ => true) .cancel true) := hstart_inv 2 (by decide) _ _ _ _
+-- the schedule the driver runs: 3 + 2 chunks and the closing one; the consumer leaves after 2
+example : exporterRun [(3, false), (2, false)] .drain 2 = ("final", 2) := by decide +kernel
+example : exporterRun [(3, false), (2, false)] .abandon 2 = ("blocked", 2) := by decide +kernel
+example : exporterRun [(3, false), (2, true), (5, false)] .abandon 5 = ("final", 5) := by decide +kernel
 
 end Qryn.C12
